@@ -243,14 +243,23 @@ def extract_loop_wiring(node: Any, invar_vals: list, outvar_vals: list, roles: l
             for k in range(n_carried):
                 if _strip(n.inputs[0]) is carried_in[k] and int(ax) == 0:
                     gathered.append(k)
-    # iteration offset (fori: Add(iter, lower))
-    offset = 0
+    # iteration offset (fori: Add(iter, lower)). The lowering's own Add carries a name hint today; a
+    # refactoring may rename it, so every Add that combines the RAW iteration number (possibly through a
+    # Cast/Identity) with a scalar constant is recorded as a candidate and `wiring_equal` accepts the
+    # prescribed offset if it is the hinted one OR among the candidates (with lower = 0 no Add is needed).
+    offset = None
+    offset_candidates = []
     for n in body:
-        if n.op_type == "Add" and any(i is iter_in for i in n.inputs) and "fori_iter_offset" in (n.outputs[0].name or ""):
-            other = [i for i in n.inputs if i is not iter_in]
+        if n.op_type == "Add" and any(i is iter_in or _strip(i) is iter_in for i in n.inputs):
+            other = [i for i in n.inputs if not (i is iter_in or _strip(i) is iter_in)]
             c = _const_of(other[0]) if other else None
-            if c is not None:
-                offset = int(np.asarray(c).reshape(-1)[0])
+            if c is not None and np.asarray(c).size == 1:
+                cv = int(np.asarray(c).reshape(-1)[0])
+                offset_candidates.append(cv)
+                if "fori_iter_offset" in (n.outputs[0].name or ""):
+                    offset = cv
+    if offset is None:
+        offset = 0 if not offset_candidates else ("one-of", sorted(set(offset_candidates + [0])))
     # which equation operand sits in which carried slot
     slots = []
     for k in range(n_carried):
@@ -525,6 +534,9 @@ def wiring_equal(real: dict, model: dict) -> list:
             # a carried slot the scheme passes through must be an Identity of its input; a slot the body
             # computes may legitimately come back unchanged (the body returned its argument)
             if len(rv) != len(mv) or any(m == "passthrough" and r != "passthrough" for r, m in zip(rv, mv)):
+                bad.append(k)
+        elif k == "iterOffset" and isinstance(rv, (tuple, list)) and rv and rv[0] == "one-of":
+            if mv not in rv[1]:
                 bad.append(k)
         elif rv != mv:
             bad.append(k)
